@@ -25,8 +25,35 @@ Section G.
     gen_Signature_verify E sg pk msg =
     Val (core_verify O pk (tg_pt sg) (amsg K O (tg_scheme sg) pk msg) (dst_of C (tg_scheme sg))).
   Proof. rewrite r_sig_verify, C03_verify_is_core_verify. reflexivity. Qed.
+  (* C03: the translated trait-level core_verify is the draft's CoreVerify with the two identity guards *)
+  Theorem generated_core_verify_exact (pk : pt K Gpk) (sig : pt K Gsig) (msg dst : bytes) :
+    gen_BlsSignatureCore_core_verify E pk sig msg dst = Val (Ok tt)
+    <-> dl sig <> f0 K /\ dl pk <> f0 K /\ dl sig = fmul K (dl pk) (eta O msg dst).
+  Proof.
+    rewrite r_core_verify. pose proof (C03_core_verify K laws O pk sig msg dst) as X.
+    split; [intros H; apply X; injection H; auto | intros H; apply X in H; rewrite H; reflexivity].
+  Qed.
+
+  (* C03: the translated SecretKey::sign is CoreSign of the scheme's input under the scheme's tag *)
+  Theorem generated_sign_is_core_sign (sk : car K) (s : scheme) (msg : bytes) :
+    gen_SecretKey_sign E sk s msg
+    = Val (match core_sign O sk (amsg K O s (public_key sk) msg) (dst_of C s) with
+           | Ok p => Ok (mktagged s p) | Err e => Err e end).
+  Proof. rewrite r_sk_sign, (C03_sign_is_core_sign K O C sk s msg). reflexivity. Qed.
+
+  (* C03: PopVerify as translated = CoreVerify of the key bytes under the POP tag, with the identity guards *)
+  Theorem generated_pop_verify_is_draft (p : pt K Gsig) (pk : pt K Gpk) :
+    gen_ProofOfPossession_verify E p pk = Val (Ok tt)
+    <-> dl p <> f0 K /\ dl pk <> f0 K /\ dl p = fmul K (dl pk) (Hpop K O C pk).
+  Proof.
+    rewrite r_pop_wrapper_verify. pose proof (C03_pop K laws O C p pk) as X.
+    split; [intros H; apply X; injection H; auto | intros H; apply X in H; rewrite H; reflexivity].
+  Qed.
 End G.
 
 Print Assumptions generated_sign_value.
 Print Assumptions generated_keygen.
 Print Assumptions generated_verify_is_core_verify.
+Print Assumptions generated_core_verify_exact.
+Print Assumptions generated_sign_is_core_sign.
+Print Assumptions generated_pop_verify_is_draft.
